@@ -351,6 +351,24 @@ func c11all(thorough bool, f func(v c11val, class string) bool) {
 			return
 		}
 	}
+	// the same through the script-level route, where the keys really are dot-symbols
+	for _, script := range []string{
+		`(let [h (hash k: 2)] (hset h (quote .k) 1) h)`, `(let [h (hash)] (hset h (quote .k) 1) (hset h k: 2) h)`,
+		`(let [h (hash a: (hash b: 7))] (hset h (quote .a.b) 8) h)`, `(let [h (hash a: (hash b: 7))] (hset h (quote a.b) 9) h)`, `(let [h (hash k: 2)] (hset h (quote .zz) 1) h)`,
+		`(begin (defmap ranch) (let [h (ranch k: 2)] (hset h (quote .k) 1) h))`,
+	} {
+		script := script
+		v := c11val{"X:" + script, func(env *zygo.Zlisp) zygo.Sexp {
+			r := zy.Eval(env, script)
+			if !r.OK() {
+				return zygo.SexpNull
+			}
+			return r.Sexp
+		}}
+		if !f(v, "dotkey-script") {
+			return
+		}
+	}
 	// string keys (JSON-style source literals): JSON text only
 	for _, k := range []string{"k", "two words", "q\"uote", "back\\slash", "é", "\n", "", "Atype2", "1"} {
 		for _, a := range small {
